@@ -46,6 +46,7 @@ type AppSnap struct {
 	Reservations                     map[string]string     // ask key -> node
 	PhData                           map[string]PhDataSnap
 	StateLog                         []string
+	SortedKeys                       []string // the pre-sorted request list (hook reader)
 	PhTimerArmed, StateTimerArmed    bool
 	HasPlaceholderAlloc, QueueLinked bool
 }
@@ -214,6 +215,7 @@ func appSnap(a *objects.Application) *AppSnap {
 		for _, pd := range a.GetAllPlaceholderData() {
 			as.PhData[pd.TaskGroupName] = PhDataSnap{Count: pd.Count, Replaced: pd.Replaced, TimedOut: pd.TimedOut}
 		}
+		as.SortedKeys = a.VerifSortedRequestKeys()
 		for _, e := range a.GetStateLog() {
 			as.StateLog = append(as.StateLog, e.ApplicationState)
 		}
